@@ -1,4 +1,6 @@
 import IPT.Model.Cli
+import IPT.Model.CliDecode
+import IPT.Lemmas.Json
 /-
   C19 — the CLI reports what the library computes; saved parameters reproduce it.
   (Weakest property for this technique: mostly glue.)  Theorems about the wiring model, for every
@@ -67,6 +69,138 @@ theorem cliCompute_dates (c : ParamsConfig α) (l : List (Int × DayTimes)) (h :
       · exact i2 x hx
     · simp at h
     · simp at h
+
+
+/-! ### The written JSON decodes to exactly the computed result (model codec) -/
+section codec
+open IPT.JsonLemmas
+
+/-- **decode ∘ render = id**: the document `renderRange` writes for a result decodes, under the
+    strict decoder of Model/CliDecode, to exactly that result - for every list of entries whose
+    dates have years 0..9999 (the years chrono writes without a sign) and whose clock fields have
+    two digits.  With `cliCompute_wf` (every computed result has such fields) and the `cli`
+    correspondence (the real file's bytes are `renderRange` of the model's result) this is the
+    model's statement of "the JSON written by the tool decodes to exactly the library's result". -/
+theorem decode_render (days : List (Int × DayTimes)) (h : ∀ e ∈ days, EntryWf e) :
+    decodeRange (renderRange days) = some days := by
+  unfold decodeRange
+  rw [renderRange_toList]
+  cases days with
+  | nil => rfl
+  | cons e rest =>
+    have hne : e :: rest ≠ [] := by simp
+    -- the text after `{` starts with the quote of the first date, so it is not `}`
+    have hfirst : ∃ q, [','].intercalate ((e :: rest).map entryL) ++ ['}'] = '"' :: q := by
+      cases rest with
+      | nil => exact ⟨_, rfl⟩
+      | cons e2 r2 => exact ⟨_, rfl⟩
+    obtain ⟨q, hq⟩ := hfirst
+    have hdec := decodeEntries_render (e :: rest) hne h ['}'] (by intro q; simp)
+      ([','].intercalate ((e :: rest).map entryL) ++ ['}']).length
+      (by have := entries_length (e :: rest); simp only [List.length_append] at *; omega)
+    unfold decodeRangeL
+    rw [hq] at hdec ⊢
+    have hs : stripPrefix? ['{'] ('{' :: '"' :: q) = some ('"' :: q) := strip_append ['{'] _
+    rw [hs]
+    dsimp only
+    rw [if_neg (by simp), hdec]
+    simp
+
+/-- hence the document determines the result: two well-formed results with the same rendering are equal -/
+theorem render_injective (a b : List (Int × DayTimes)) (ha : ∀ e ∈ a, EntryWf e) (hb : ∀ e ∈ b, EntryWf e)
+    (h : renderRange a = renderRange b) : a = b := by
+  have h1 := decode_render a ha
+  rw [h, decode_render b hb] at h1
+  exact (Option.some.inj h1).symm
+
+/-- every clock time the model produces is a valid time of day (`hmsOpt` is chrono's
+    `NaiveTime::from_hms_opt(..).unwrap()`: anything else is a panic, not a result) -/
+theorem hourToTime_wf (p : Params α) (pr : Prayer) (x : α) (t : HMS) (h : hourToTime p pr x = .ok t) :
+    t.h < 24 ∧ t.m < 60 ∧ t.s < 60 := by
+  unfold hourToTime at h
+  split at h
+  · simp at h
+  · exact hmsOpt_wf _ _ _ t h
+
+theorem optTime_wf (p : Params α) (pr : Prayer) (o : Option (PH α)) (x : Option PT) (h : optTime p pr o = .ok x) :
+    PTwf x := by
+  cases o with
+  | none => simp only [optTime, Except.ok.injEq] at h; subst h; trivial
+  | some ph =>
+    simp only [optTime, toPrayerTime] at h
+    split at h
+    · simp at h
+    · rename_i t ht
+      split at ht
+      · simp at ht
+      · rename_i tm htm
+        simp only [Except.ok.injEq] at ht h
+        subst ht; subst h
+        have := hourToTime_wf p pr ph.value tm htm
+        exact ⟨by simp only; omega, by simp only; omega, by simp only; omega⟩
+
+theorem imsaakOf_wf (p : Params α) (run : Params α → Except Panic (PHours α)) (x : Option PT)
+    (h : imsaakOf p run = .ok x) : PTwf x := by
+  unfold imsaakOf at h
+  split at h
+  · simp at h
+  · simp only at h
+    split at h
+    · simp at h
+    · split at h
+      · split at h
+        · simp at h
+        · exact flagExtreme_wf _ x (fun y hy => optTime_wf _ _ _ y hy) h
+      · exact optTime_wf _ _ _ x h
+
+/-- **every result of `prayerTimesDt` has seven well-formed entries** (each absent, or a time with
+    h < 24, m < 60, s < 60 - two digits per field), for every scalar type -/
+theorem prayerTimesDt_wf (p : Params α) (loc : Location α) (rd : Int) (w : Option (Weather α)) (d : DayTimes)
+    (h : prayerTimesDt p loc rd w = .ok d) : DayWf d := by
+  unfold prayerTimesDt at h
+  simp only at h
+  split at h
+  · simp at h
+  · rename_i hh _
+    unfold assemble at h
+    split at h <;> try (simp at h)
+    rename_i f s dh a m i im hf hs hd ha hm hi him
+    subst h
+    exact ⟨imsaakOf_wf _ _ im him, optTime_wf _ _ _ f hf, optTime_wf _ _ _ s hs, optTime_wf _ _ _ dh hd,
+      optTime_wf _ _ _ a ha, optTime_wf _ _ _ m hm, optTime_wf _ _ _ i hi⟩
+
+/-- so every entry the tool computes for a range inside years 0..9999 is well formed ... -/
+theorem cliCompute_wf (c : ParamsConfig α) (l : List (Int × DayTimes)) (h : cliCompute c = .ok l)
+    (hy : ∀ rd ∈ rangeDates c.startRd c.endRd, DateWf rd) : ∀ e ∈ l, EntryWf e := by
+  obtain ⟨h1, h2⟩ := cliCompute_dates c l h
+  intro e he
+  refine ⟨hy e.1 ?_, prayerTimesDt_wf _ _ _ _ _ (h2 e he)⟩
+  rw [← h1]
+  exact List.mem_map_of_mem he
+
+/-- **C19, first clause, on the model**: for every accepted configuration whose dates lie in years
+    0..9999, the document the tool writes (`renderRange` of what it computes) decodes to exactly
+    the per-date library results for the dates of the range, in order. -/
+theorem cli_json_decodes_to_library_result (c : ParamsConfig α) (l : List (Int × DayTimes))
+    (h : cliCompute c = .ok l) (hy : ∀ rd ∈ rangeDates c.startRd c.endRd, DateWf rd) :
+    decodeRange (renderRange l) = some l ∧
+    l.map Prod.fst = rangeDates c.startRd c.endRd ∧
+    ∀ x ∈ l, prayerTimesDt c.params c.location x.1 none = .ok x.2 :=
+  ⟨decode_render l (cliCompute_wf c l h hy), cliCompute_dates c l h⟩
+
+end codec
+
+-- non-vacuity: the hypotheses of `decode_render` are met by a two-entry result (one absent entry,
+-- two extreme ones), and the empty document decodes to the empty result
+example :
+    let d : DayTimes := ⟨none, some ⟨⟨3, 7, 9⟩, true⟩, some ⟨⟨5, 40, 0⟩, false⟩, some ⟨⟨12, 0, 59⟩, false⟩,
+      some ⟨⟨15, 1, 2⟩, false⟩, some ⟨⟨18, 20, 30⟩, false⟩, some ⟨⟨23, 59, 59⟩, true⟩⟩
+    ∀ e ∈ [(738521, d), (738522, d)], IPT.JsonLemmas.EntryWf e := by
+  intro d e he
+  simp only [List.mem_cons, List.not_mem_nil, or_false] at he
+  rcases he with rfl | rfl <;>
+    exact ⟨⟨by decide, by decide⟩, by simp [IPT.JsonLemmas.DayWf, IPT.JsonLemmas.PTwf, d]⟩
+example : decodeRange (renderRange []) = some [] := by decide
 
 -- non-vacuity: a range of three days
 example : rangeDates 738521 738523 = [738521, 738522, 738523] := by decide
